@@ -48,7 +48,7 @@ CHECKS.update({
 CHECKS.update({
     'C05': dict(
         technique='byte-copy audit of the f32 codec + key discipline + must-pass-through write rule + truncation (sibling) rule + effect table over the build call graph',
-        text='No float arithmetic and one endianness class in the f32 codec; every item API addresses Key::item(self.index, item); every success return of add/append follows the item put; every vector decoded from a stored leaf and returned or re-encoded is truncated to the declared dimension; iterators scan exactly the item prefix pairing id and vector of the same entry; clear removes every key; nothing reachable from the build writes an item key except the header-only preprocess rewrite; metadata.items is the live item scan; every success path of a build publishes the metadata (R-PUBLISH); the quantised codec clauses of C12 (packer, iterator) are re-evaluated because the item store goes through them.',
+        text='No float arithmetic and one endianness class in the f32 codec; every item API addresses Key::item(self.index, item); every success return of add/append follows the item put; every vector decoded from a stored leaf and returned or re-encoded is truncated to the declared dimension; iterators scan exactly the item prefix pairing id and vector of the same entry; clear removes every key; nothing reachable from the build writes an item key except the header-only preprocess rewrite; metadata.items is the live item scan; every success path of a build publishes the metadata (R-PUBLISH); the quantised codec clauses of C12 (packer, iterator) are re-evaluated because the item store goes through them. Stored leaf = caller vector with its own header in both entry points (R-LEAF).',
         design='DESIGN.md §4 C05',
         note='NOT decided: heed/LMDB get/put fidelity; bit-exactness beyond "no arithmetic between API and store".'),
     'C13': dict(
@@ -76,7 +76,7 @@ CHECKS.update({
 CHECKS.update({
     'C01': dict(
         technique='bounded interprocedural kind inference with mode refinement + L/R tag propagation + must-pass-through / per-element loop rules over MIR',
-        text='Necessary local disciplines of the forest invariant, each decided on every path: no tree id reaches an item sink or vice versa (with `n.item` refined by dominating mode tests; re-tagging needs a mode test), children of every constructed split derive from their own side, both children get the same operations, every fresh id is stored and linked, bucket rewrites are `|= to_insert` / `-= to_delete` under their own id, no stale item lookup is fatal, the shortcut wipes the tree range, metadata publishes the threaded roots vector and the live item scan, every TmpNodesReader is applied, the batch selector partitions its input; a parent is re-linked whenever either child id changed (whole-id comparison); RoaringBitmap::push only receives ascending values; merged buckets are exactly the union of both sides.',
+        text='Necessary local disciplines of the forest invariant, each decided on every path: no tree id reaches an item sink or vice versa (with `n.item` refined by dominating mode tests; re-tagging needs a mode test), children of every constructed split derive from their own side, both children get the same operations, every fresh id is stored and linked, bucket rewrites are `|= to_insert` / `-= to_delete` under their own id, no stale item lookup is fatal, the shortcut wipes the tree range, metadata publishes the threaded roots vector and the live item scan, every TmpNodesReader is applied, the batch selector partitions its input; a parent is re-linked whenever either child id changed (whole-id comparison); RoaringBitmap::push only receives ascending values; merged buckets are exactly the union of both sides. `a successful build` premise: no storage error or cancellation is swallowed anywhere (C10 R-ERR / R-CANCEL re-evaluated); the metric-change clauses of C18 are part of the shared premises.',
         design='DESIGN.md §4 C01',
         note='NOT decided: that the local disciplines compose into the global invariant for all histories (a proof-family job); remap across batches; split_after changing between builds.'),
     'C02': dict(
@@ -91,27 +91,27 @@ CHECKS.update({
         note='NOT decided: distance truth (C11); monotonicity is a consequence of the checked premises, not checked on values.'),
     'C04': dict(
         technique='finite sign-domain abstract interpretation (incl. NaN) of side/pq_distance + L/R tag propagation + pairing rules',
-        text='margin>0 => Right, <0 => Left; pq_distance keeps the routed side positive and the other negative (default methods and every override); margin_no_header impls forward both args to one symmetric kernel; every split construction pairs children with sides; reader pushes left with Side::Left; max-heap; random children <=> zeroed normal; centroid / normalisation guards keep NaN out of split normals; the forest / staleness premises (C01, C06 rule sets) are re-evaluated (an overwritten vector must leave its old position and be re-routed).',
+        text='margin>0 => Right, <0 => Left; pq_distance keeps the routed side positive and the other negative (default methods and every override); margin_no_header impls forward both args to one symmetric kernel; every split construction pairs children with sides; reader pushes left with Side::Left; max-heap; random children <=> zeroed normal; centroid / normalisation guards keep NaN out of split normals; the forest / staleness premises (C01, C06 rule sets) are re-evaluated (an overwritten vector must leave its old position and be re-routed). A null margin caps the priority at zero on both sides and a negative priority stays negative (pq table incl. zero/negative rows); is_zero of every vector codec is `every element is 0` over the whole vector.',
         design='DESIGN.md §4 C04',
         note='NOT decided: nothing structural; exactly-zero margins exempt by the property.'),
     'C11': dict(
         technique='SIMD kernel shape extraction from MIR (load offsets, strides, accumulators, tail) + target-feature guard dominance + formula/interval checks',
-        text='Structural clauses only: lane tiling/pairing/accumulator/horizontal-sum/remainder shape of all 4 x86 kernels, scalar loops, dispatch to kernels of the right kind, every target-feature call guarded, per-metric formula shapes incl. Cosine in [0,1] by interval evaluation and its vanishing-norm guard.',
+        text='Structural clauses only: lane tiling/pairing/accumulator/horizontal-sum/remainder shape of all 4 x86 kernels, scalar loops, dispatch to kernels of the right kind, every target-feature call guarded, per-metric formula shapes incl. Cosine in [0,1] by interval evaluation and its vanishing-norm guard. The leaf stored by add_item/append_item is Leaf{header: D::new_header(&v), vector: v} of the caller vector (R-LEAF).',
         design='DESIGN.md §4 C11',
         note='NOT decided: rounding error and last-ulp agreement (a statement about values); simple_neon.rs not compiled on this host. One known finding (SSE4.1 intrinsic behind an sse check) is listed in known_findings.json.'),
     'C12': dict(
         technique='coefficient extraction (linear form in the popcount), finite-domain evaluation of the bit->value map, state-machine and mask-table extraction from MIR',
-        text='4h/d and 2h/d by construction (constant coefficient x popcount(u xor v) / declared dimension); quantised dot product and cosine form; decoder maps bit1->+1, bit0->-1 LSB-first reloading every 64; packer puts component i at bit i with 1 = positive sign bit, one NE word per 64, padding bits 0 on both entry points; SSE mask/lane/group/store table; feature guards; truncation; every D::normalized_distance call passes the declared dimension; the quantised cosine quotient is guarded by its own denominator; C18\'s metric-change rules are re-evaluated (the stored norm header).',
+        text='4h/d and 2h/d by construction (constant coefficient x popcount(u xor v) / declared dimension); quantised dot product and cosine form; decoder maps bit1->+1, bit0->-1 LSB-first reloading every 64; packer puts component i at bit i with 1 = positive sign bit, one NE word per 64, padding bits 0 on both entry points; SSE mask/lane/group/store table; feature guards; truncation; every D::normalized_distance call passes the declared dimension; the quantised cosine quotient is guarded by its own denominator; C18\'s metric-change rules are re-evaluated (the stored norm header). The quantised leaf stored by the item API is built from the caller vector as is (R-LEAF).',
         design='DESIGN.md §4 C12',
         note='NOT decided: bit-exact round trip for all patterns/dimensions; NEON paths. Known finding shared with C11.'),
     'C14': dict(
         technique='loop-exit enumeration with progress guard, conservation (must-pass-through) rules on the batch selector, worklist rules, forward def-use closure of the memory option',
-        text='A non-empty input always yields a non-empty batch (break needs >= K>=1 selected); the examined id is moved as a whole or not at all; the selected half is routed, the remainder re-examined or passed on, over-full results re-queued, worklist pops what it examines; the memory hint reaches only the selector; re-splitting an over-full bucket from a partial batch can never hand back a single bucket (Q-PROGRESS: the worklist drains). The C01 forest rules are re-evaluated.',
+        text='A non-empty input always yields a non-empty batch (break needs >= K>=1 selected); the examined id is moved as a whole or not at all; the selected half is routed, the remainder re-examined or passed on, over-full results re-queued, worklist pops what it examines; the memory hint reaches only the selector; re-splitting an over-full bucket from a partial batch can never hand back a single bucket (Q-PROGRESS: the worklist drains). The C01 forest rules are re-evaluated. The remainder is re-inserted below the examined bucket id (where the rebuilt subtree was stored, remap direction checked); C15 capacity gate re-evaluated (every over-full bucket queued under its own id).',
         design='DESIGN.md §4 C14',
         note='NOT decided: termination when re-splitting does not shrink (C20); time.'),
     'C15': dict(
         technique='edge-dominance capacity gate on every bucket write, dominance of the worklist drain over the metadata put, formula/loop rules for the tree count',
-        text='fit_in_descendant is n <= split_after.unwrap_or(dimensions); every bucket write is under it, or queued for re-splitting, or a shrunk copy, or in a function only called under it; worklist drained before metadata; explicit Some(n) used unchanged, surplus roots removed with their trees deleted, exactly target - roots.len() roots created; the forest / staleness premises (C01, C06 rule sets) are re-evaluated.',
+        text='fit_in_descendant is n <= split_after.unwrap_or(dimensions); every bucket write is under it, or queued for re-splitting, or a shrunk copy, or in a function only called under it; worklist drained before metadata; explicit Some(n) used unchanged, surplus roots removed with their trees deleted, exactly target - roots.len() roots created; the forest / staleness premises (C01, C06 rule sets) are re-evaluated. A merged bucket (union of two sub-trees) is never a shrunk copy; every id put on a worklist parameter is the id of a bucket written there.',
         design='DESIGN.md §4 C15',
         note='NOT decided: arithmetic of the automatic tree count (0 for dimensions = 1 -- observed, value-level, never reported); numeric equality roots.len() == n.'),
     'C20': dict(
